@@ -172,7 +172,7 @@ let main_exec () =
     let top_ok = (match n with NCat l -> (match List.rev l with NGoal :: _ -> true | _ -> false) | NGoal -> true | NCharSet [] -> true | _ -> false) in
     (* ... and the invariant of the optimizer theorems (IRShape.qok): loop bounds ordered, a loop's group range = the
        groups of its body, character sets of at most four members, bracket sets well-formed *)
-    if tag = "ir0" && qok n && simple n then incr opt_covered;
+    if tag = "ir0" && qok n && parsed n then incr opt_covered;
     if not (top_ok && ir_wf (ir_top n) && brackets_wf (ir_top n) && qok n) then begin
       incr mism;
       Printf.printf "MISMATCH stage=IRshape-%s case=%s pat=%s flags=%s detail=top_is_cat_goal:%b,ir_wf:%b,brackets_wf:%b,qok:%b\n" tag !cur_id !cur_pat !cur_flags top_ok (ir_wf (ir_top n)) (brackets_wf (ir_top n)) (qok n)
